@@ -72,7 +72,7 @@ CHECKS = {
         ref="DESIGN.md §4.8, §5 C19, §6",
         note="Trusted: TLC, pandas DataFrames shaped as read_excel(sheet_name=None, index_col=0) returns them (openpyxl is "
              "not installed offline: reading .xlsx itself is outside the claim), matplotlib 3D artist accessors. Name forms "
-             "are varied; coordinate / direction / optional tables are always handed in as DataFrames.",
+             "and (geo1) the array forms of the direction table and of the optional tables are varied.",
         technique="TLC model checking of Geo.tla + replay of every table set through the validation functions, def_geo* and the mode plots",
     ),
     "C14": dict(
